@@ -47,6 +47,8 @@ pub enum OpWhat {
     Subscribe(u8),
     Unsubscribe(u8),
     BrokerPing(u8),
+    /// result Bool(true): the broker instance was seen terminated when the op ended
+    BrokerHalt(u8),
     Feed,
     EndStream,
     Sleep,
